@@ -4,6 +4,7 @@
     body_ddd_from text     -> as c_ddd_from of Driver/Codec.lean      (ok:<ddd> | err:<E>; unmodelled for non-ASCII text)
     body_period_from text  -> as c_period_from
     body_atom_to atom      -> as c_atom_to
+    body_month_from text   -> as c_month_from (the regenerated vMonth.__new__ on a str)
     body_period_to atom atom -> as c_period_to   (unmodelled when two datetimes have the same fields and different UTC flags:
                                                  the translated code sees the flag only through `tzid_from_dt` of the fields)
   The pieces are those of ICal/Model/DDDPieces.lean; `tzp.localize_utc` marks the datetime it is applied to.
@@ -80,6 +81,10 @@ def handleBodiesDDD (op : String) (args : List String) : Option String :=
       | some tz => some (okS (Bodies.periodToP tz x y))
       | none => some "unmodelled"
     | _, _ => none
+  | "body_month_from", [a] => asciiT a fun s =>
+      pyRes (fun (p : Int × Bool) => toString p.1 ++ "," ++ (if p.2 then "1" else "0"))
+        (Gen.BodiesDec.vMonth_new (month := s) (params := ()) (new_int := fun i => (i, false)) (set_leap := fun m l => (m.1, l))
+          (params_of := fun _ => ()) (set_params := fun m _ => m))
   | _, _ => none
 
 end ICal.Driver
